@@ -2,12 +2,29 @@
 
 Lean: Props/C18.lean over Model/Kernel.lean (kernel-weighted sum, objective, contribution -> distribution -> cumulative volume; run at ℚ
 against the real function): linearity, non-negativity, exact combinations have objective 0 and every zero-objective vector reproduces the
-isotherm, cumulative = running integral and non-decreasing, convex-combination smoothing keeps non-negativity.  SLSQP, the cubic kernel
-interpolation and scipy's B-spline are numerical: every fit is decided by certificate on the returned arrays.
+isotherm, cumulative = running integral and non-decreasing, convex-combination smoothing keeps non-negativity;
+Props/C18/Spline.lean (the smoothing of `bspline` = de Boor's recursion on the clamped knot vector: every sample is a convex combination of
+the active control values, so the smoothed distribution is non-negative, the smoothed widths stay in the kernel's range, the curve is
+clamped to the first/last control point; run at ℚ against the library on every smoothed fit that is small enough);
+Props/C18/Memo.lean (a memo is invisible for every history of calls iff its key determines the cached value: the specification of
+history independence that the call sequences below test on the real functions).
+SLSQP and the cubic kernel interpolation are numerical: every fit is decided by certificate on the returned arrays, recomputed from a
+kernel that is loaded and interpolated HERE (never from the library's caches).  Sequences of fits in one process (same kernel, related
+pressure grids: same length and end points, one point moved, subsets, shifted by one point, reversed, the same array object changed in
+place, other isotherm on the same grid, other spline order, other kernel on the same grid, other limits through the entry point) are part
+of the quick tier: each answer of a sequence has to pass the same certificate, and a repeated call has to repeat its answer.
 """
+import json
 import math
 import os
+import sys
 import tempfile
+
+# The fits are small dense problems (77 unknowns at most): BLAS worker threads only spin (measured: 16 threads 20 s, 1 thread 5.5 s for the same 12 fits).
+# One thread for this check's interpreter, unless the caller has chosen otherwise; effective only when numpy is not loaded yet (it is loaded by import_pygaps below).
+if "numpy" not in sys.modules:
+    for _v in ("OPENBLAS_NUM_THREADS", "OMP_NUM_THREADS", "MKL_NUM_THREADS"):
+        os.environ.setdefault(_v, "1")
 
 from pgv.charlib import optq, parse_q, parse_qlist, q, qlist, quiet_logging
 from pgv.core import import_pygaps
@@ -29,6 +46,19 @@ def run(ck):
     N = ck.n(12, 60)
     worst = {}
     lines, plan = [], []
+    bs_lines, bs_plan = [], []
+
+    _reported = {}
+
+    def fail_case(sig, detail):
+        """at most two replay files per signature (a broken history fails the same way at every step; the replay test is on the signature)"""
+        key = json.dumps(sig, sort_keys=True, default=str)
+        _reported[key] = _reported.get(key, 0) + 1
+        if _reported[key] <= 2:
+            return ck.fail_case(sig, detail)
+        if ck.match_known(sig) is None:
+            ck.cov["further_failures_with_a_reported_signature"] = ck.cov.get("further_failures_with_a_reported_signature", 0) + 1
+        return False
 
     def note(k, v):
         worst[k] = max(worst.get(k, 0.0), v)
@@ -45,7 +75,7 @@ def run(ck):
     uw = [0.5, 0.8, 1.2, 2.0, 3.5, 6.0]
     up = np.geomspace(1e-6, 0.9, 14)
     tab = {str(w): [3.0 * (p * 10 ** (6 - w)) / (1 + p * 10 ** (6 - w)) + w * 2.0 / (1 + math.exp(-(math.log10(p) + 6 - w) * 3)) for p in up] for w in uw}
-    pd.DataFrame(tab, index=up).to_csv(user_path)
+    pd.DataFrame(tab, index=up).to_csv(user_path, float_format="%.12e")       # fixed format: the twin file below has the same size in bytes
 
     # a second user kernel with the SAME file name in another directory and other pore widths / pressure range
     tmpdir2 = tempfile.mkdtemp(prefix="pgv-kernel2-")
@@ -54,6 +84,47 @@ def run(ck):
     up2 = np.geomspace(1e-5, 0.6, 12)
     tab2 = {str(w): [2.0 * (p * 10 ** (5 - w)) / (1 + p * 10 ** (5 - w)) + w * 1.5 / (1 + math.exp(-(math.log10(p) + 5 - w) * 3)) for p in up2] for w in uw2}
     pd.DataFrame(tab2, index=up2).to_csv(user_path2)
+
+    # a third, tiny user kernel: 3 pore widths (a requested spline order 3 is clipped to 2), 8 pressures
+    tmpdir3 = tempfile.mkdtemp(prefix="pgv-kernel3-")
+    user_path3 = os.path.join(tmpdir3, "tiny-kernel.csv")
+    uw3 = [0.7, 1.5, 4.0]
+    up3 = np.geomspace(2e-6, 0.8, 8)
+    tab3 = {str(w): [2.5 * (p * 10 ** (5.5 - w)) / (1 + p * 10 ** (5.5 - w)) + w * 1.2 / (1 + math.exp(-(math.log10(p) + 5.5 - w) * 2.5)) for p in up3] for w in uw3}
+    pd.DataFrame(tab3, index=up3).to_csv(user_path3)
+    # a TWIN of the first user kernel: another directory, the same file name, pore widths, pressures, shape and size in bytes (and written in the same second),
+    # other loadings.  Nothing but the full path (or the content) tells the two files apart: whatever is kept per kernel under a weaker key mixes them up.
+    tmpdir4 = tempfile.mkdtemp(prefix="pgv-kernel4-")
+    twin_path = os.path.join(tmpdir4, "user-kernel.csv")
+    tab4 = {str(w): [2.0 * (p * 10 ** (5.6 - w)) / (1 + p * 10 ** (5.6 - w)) + w * 1.4 / (1 + math.exp(-(math.log10(p) + 6.3 - w) * 2.2)) for p in up] for w in uw}
+    pd.DataFrame(tab4, index=up).to_csv(twin_path, float_format="%.12e")
+    twin_same_size = os.path.getsize(user_path) == os.path.getsize(twin_path)
+    KERNEL_FILES = {"shipped": (shipped, widths_shipped, float(kp[0]), float(kp[-1])), "user": (user_path, np.array(uw), float(up[0]), float(up[-1])),
+                    "user2": (user_path2, np.array(uw2), float(up2[0]), float(up2[-1])), "user3": (user_path3, np.array(uw3), float(up3[0]), float(up3[-1])),
+                    "twin": (twin_path, np.array(uw), float(up[0]), float(up[-1]))}
+
+    def bspline_ref(xs, ys, degree, m=100):
+        """the open B-spline of `bspline` by de Boor's recursion (the arithmetic of Model/Kernel.lean `bsplineCurve`, in floats): no scipy"""
+        n = len(xs)
+        p = min(max(int(degree), 1), n - 1)
+
+        def knot(i):
+            return float(min(max(i, p), n) - p)
+        ox, oy = [], []
+        for i in range(m):
+            x = (n - p) * i / (m - 1)
+            k = p
+            while k < n - 1 and not x <= knot(k + 1):
+                k += 1
+
+            def de_boor(c, r, j):
+                if r == 0:
+                    return float(c[j])
+                a = (x - knot(j)) / (knot(j + p - r + 1) - knot(j))
+                return (1 - a) * de_boor(c, r - 1, j - 1) + a * de_boor(c, r - 1, j)
+            ox.append(de_boor(xs, p, k))
+            oy.append(de_boor(ys, p, k))
+        return np.array(ox), np.array(oy)
 
     from scipy import interpolate as _ip
     _own = {}
@@ -66,53 +137,132 @@ def run(ck):
             _own[path] = {c: _ip.interp1d(rk[c].index, rk[c].values, kind="cubic") for c in rk}
         return _own[path]
 
-    def certificate(path, pressure, loading, order, weights, sig, detail, widths0):
-        try:
-            w, dist, cum, kl = pk.psd_dft_kernel_fit(np.array(pressure), np.array(loading), path, bspline_order=order)
-        except CalculationError as e:
-            ck.count(("fit-refused", sig["kernel"]), nontrivial=False, bucket="fit refused (optimiser reports failure)")
-            return None
-        except Exception as e:  # noqa
-            ck.fail_case({**sig, "clause": "fit raises a non-pyGAPS error", "error": type(e).__name__}, {**detail, "error": repr(e)[:300]})
-            return None
-        w, dist, cum, kl = (np.asarray(a, dtype=float) for a in (w, dist, cum, kl))
+    # Tolerance of the exact-combination clause, measured on the unchanged tree (SLSQP, ftol = 1e-4 ABSOLUTE on the sum of squares, start vector 0; 6400 random
+    # sparse combinations on 3-40 points over all four kernel files): the L2 misfit is below 0.062 whenever |loading|_2 < 7.5 (the optimiser stops on an absolute
+    # change of the objective: an isotherm whose sum of squares is below ftol is answered by the start vector, relative error 1.0) and below 0.0062 |loading|_2 above.
+    #   misfit <= max(0.15, 2e-2 |loading|_2)        (worst measured ratio to this bound: 0.41)
+    # For |loading|_2 >= 7.5 this is the relative 2e-2 of the first version of this check; below, a relative statement is ill-posed.
+    REL_TOL, ABS_TOL = 2e-2, 0.15
+
+    def verify(res, path, pressure, loading, order, weights, sig, detail, widths0, base=None):
+        """certificate on the arrays returned by one fit (`res` = widths, distribution, cumulative, fitted isotherm); `base` = the arrays
+        returned for the same data with spline order 0 (when `order` > 0)"""
+        w, dist, cum, kl = (np.asarray(a, dtype=float) for a in res)
+        pressure = np.asarray(pressure, dtype=float)
+        loading = np.asarray(loading, dtype=float)
         scale = float(np.max(np.abs(dist))) or 1.0
         if np.min(dist) < -1e-9 * scale:
-            ck.fail_case({**sig, "clause": "pore size distribution has negative entries"}, {**detail, "min": float(np.min(dist)), "max": scale})
+            fail_case({**sig, "clause": "pore size distribution has negative entries"}, {**detail, "min": float(np.min(dist)), "max": scale})
+        if len(w) != len(dist) or len(cum) != len(dist):
+            fail_case({**sig, "clause": "returned arrays have different lengths"}, {**detail, "lengths": [len(w), len(dist), len(cum)]})
+            return None
         dw = np.ediff1d(w, to_begin=w[0])
         e = float(np.max(np.abs(cum - np.cumsum(dist * dw))) / max(float(np.max(np.abs(cum))), 1e-300))
         note("cumulative = running integral", e)
         if not (e <= 1e-12):
-            ck.fail_case({**sig, "clause": "cumulative pore volume is not the running integral of the reported distribution"}, {**detail, "worst": e})
+            fail_case({**sig, "clause": "cumulative pore volume is not the running integral of the reported distribution"}, {**detail, "worst": e})
         if np.any(np.diff(cum) < -1e-9 * max(float(np.max(np.abs(cum))), 1e-300)):
-            ck.fail_case({**sig, "clause": "cumulative pore volume decreases"}, {**detail, "cumulative": cum[:8].tolist()})
+            fail_case({**sig, "clause": "cumulative pore volume decreases"}, {**detail, "cumulative": cum[:8].tolist()})
         if len(kl) != len(pressure):
-            ck.fail_case({**sig, "clause": "fitted isotherm has another length than the data"}, detail)
+            fail_case({**sig, "clause": "fitted isotherm has another length than the data"}, {**detail, "got": len(kl), "expected": len(pressure)})
             return None
         kernel = own_kernel(path)
-        kpts = np.asarray([kernel[size](np.array(pressure)) for size in kernel])
+        kpts = np.asarray([kernel[size](pressure) for size in kernel])
         if order == 0:
             if len(w) != len(widths0) or not np.allclose(w, widths0):
-                ck.fail_case({**sig, "clause": "reported pore widths are not those of the kernel file"}, {**detail, "got": w[:6].tolist(), "expected": list(widths0[:6])})
+                fail_case({**sig, "clause": "reported pore widths are not those of the kernel file"}, {**detail, "got": w[:6].tolist(), "expected": list(widths0[:6])})
                 return None
             # reported distribution x width increments are the contributions: their kernel-weighted sum is the reported fitted isotherm
             x = dist * np.ediff1d(widths0, to_begin=widths0[0])
             e = float(np.max(np.abs(kpts.T @ x - kl)) / max(float(np.max(np.abs(kl))), 1e-300))
             note("kernel-weighted sum = fitted isotherm", e)
             if not (e <= 1e-10):
-                ck.fail_case({**sig, "clause": "kernel-weighted sum of the distribution is not the reported fitted isotherm"}, {**detail, "worst": e})
-            if len(widths0) <= 8 and len(pressure) <= 14:
+                fail_case({**sig, "clause": "kernel-weighted sum of the distribution is not the reported fitted isotherm"}, {**detail, "worst": e})
+            if len(widths0) <= 8 and len(pressure) <= 14 and len(lines) < 400:
                 lines.append("kl " + " ".join(qlist(r) for r in kpts) + " | " + qlist(x))
                 plan.append(("kl", kl))
                 lines.append(f"dist {qlist(x)} {qlist(widths0)}")
                 plan.append(("dist", (dist, cum)))
+        elif base is not None:
+            w0, d0, _, kl0 = (np.asarray(a, dtype=float) for a in base)
+            # the smoothing acts on the distribution only: the fitted isotherm is the one of the unsmoothed fit of the same data
+            if len(kl0) != len(kl) or not np.array_equal(kl0, kl):
+                fail_case({**sig, "clause": "fitted isotherm depends on the spline order"}, {**detail, "max_difference": float(np.max(np.abs(kl0 - kl))) if len(kl0) == len(kl) else None})
+            elif len(w0) == len(widths0):
+                rw, rd = bspline_ref(w0, d0, order)
+                sc_w, sc_d = float(np.max(np.abs(rw))), max(float(np.max(np.abs(rd))), 1e-300)
+                if len(w) != len(rw):
+                    fail_case({**sig, "clause": "smoothed distribution is not the B-spline (requested order) of the unsmoothed distribution", "how": "number of samples"}, {**detail, "got": len(w), "expected": len(rw)})
+                else:
+                    e = max(float(np.max(np.abs(w - rw))) / sc_w, float(np.max(np.abs(dist - rd))) / sc_d)
+                    note("smoothed distribution = de Boor recursion on the unsmoothed one", e)
+                    if not (e <= 1e-9):
+                        fail_case({**sig, "clause": "smoothed distribution is not the B-spline (requested order) of the unsmoothed distribution"},
+                                     {**detail, "worst_relative_difference": e, "widths_head": w[:4].tolist(), "expected_widths_head": rw[:4].tolist(),
+                                      "distribution_at_worst": [float(dist[int(np.argmax(np.abs(dist - rd)))]), float(rd[int(np.argmax(np.abs(dist - rd)))])]})
+                    # theorems bsplineCurve_widths_mem_Icc / bsplineCurve_ends / bsplineCurve_nonneg on the real arrays
+                    if w[0] != w0[0] or abs(w[-1] - w0[-1]) > 1e-12 * abs(w0[-1]) or np.min(w) < w0[0] * (1 - 1e-12) or np.max(w) > w0[-1] * (1 + 1e-12):
+                        fail_case({**sig, "clause": "smoothed pore widths leave the range of the kernel's pore widths"}, {**detail, "got": [float(np.min(w)), float(np.max(w))], "kernel": [float(w0[0]), float(w0[-1])]})
+                    if len(w0) <= 8 or len(bs_lines) < ck.n(3, 10):
+                        bs_lines.append(f"bs {int(order)} {len(w)} {qlist(w0)} {qlist(d0)}")
+                        bs_plan.append((w, dist))
+        nl = float(np.linalg.norm(loading))
+        e_abs = float(np.linalg.norm(kl - loading))
+        # the answer is never worse than the optimiser's start vector 0 (objective |loading|^2)
+        if not (e_abs <= nl * (1 + 1e-9) + 1e-12):
+            fail_case({**sig, "clause": "fitted isotherm is further from the data than the zero isotherm the optimiser starts from"}, {**detail, "residual_l2": e_abs, "data_l2": nl})
         if weights is not None:
-            e = float(np.linalg.norm(kl - np.array(loading)) / max(np.linalg.norm(loading), 1e-300))
-            note(f"exact combination: fit error (order {order})", e)
-            if not (e <= 2e-2):
-                ck.fail_case({**sig, "clause": "fitted isotherm does not match an exact non-negative combination of kernel isotherms", "dense_combination": bool(np.count_nonzero(weights) > 20)},
-                             {**detail, "relative_l2_error": e})
+            dense = bool(np.count_nonzero(weights) > 20)
+            small = nl * REL_TOL < ABS_TOL
+            if small:
+                ck.count(("small-input", sig.get("kernel")), nontrivial=False, bucket="exact combination with |loading| < 7.5 (absolute tolerance of the optimiser decides)")
+                note("exact combination: absolute fit error of small inputs", e_abs)
+            else:
+                note(f"exact combination: fit error (order {order})", e_abs / nl)
+            if not (e_abs <= max(ABS_TOL, REL_TOL * nl)):
+                fail_case({**sig, "clause": "fitted isotherm does not match an exact non-negative combination of kernel isotherms", "dense_combination": dense},
+                             {**detail, "relative_l2_error": e_abs / max(nl, 1e-300), "absolute_l2_error": e_abs, "loading_l2": nl})
         return w, dist, cum, kl
+
+    def fit(path, pressure, loading, order, sig, detail):
+        """one call of the backend; None when it refuses"""
+        try:
+            return pk.psd_dft_kernel_fit(pressure, loading, path, bspline_order=order)
+        except CalculationError:
+            ck.count(("fit-refused", sig["kernel"]), nontrivial=False, bucket="fit refused (optimiser reports failure)")
+            return None
+        except Exception as e:  # noqa
+            fail_case({**sig, "clause": "fit raises a non-pyGAPS error", "error": type(e).__name__}, {**detail, "error": repr(e)[:300]})
+            return None
+
+    def certificate(path, pressure, loading, order, weights, sig, detail, widths0):
+        res = fit(path, np.array(pressure), np.array(loading), order, sig, detail)
+        if res is None:
+            return None
+        base = None
+        if order != 0:
+            # the unsmoothed fit of the same data: reference of the smoothing (and itself certified)
+            base = fit(path, np.array(pressure), np.array(loading), 0, sig, detail)
+            if base is not None:
+                verify(base, path, pressure, loading, 0, weights, {**sig, "bspline_order": 0, "as_reference_of_order": order}, detail, widths0)
+        return verify(res, path, pressure, loading, order, weights, sig, detail, widths0, base=base)
+
+    def combo(path, pressure, weights):
+        kernel = own_kernel(path)
+        return np.asarray([kernel[size](np.asarray(pressure, dtype=float)) for size in kernel]).T @ weights
+
+    # TODO(candidate finding, reported, kept OUT of the generator): the fit is not scale covariant.  Weights stay in 0.05 .. 1 (loadings of the size of real
+    # isotherms, 0.01 .. 100 mmol/g).  On the unchanged tree: shipped kernel, the kernel's own pressures kp[20:170:5], isotherm = s x (kernel isotherm of the 11th width):
+    # relative L2 misfit below 1e-4 for s <= 10 but 0.100 for s = 30 and s = 100 (reported total volume 36.25 instead of 30; scipy nnls solves the same problem to 1e-17);
+    # user2 kernel, weight 1e4 on the width 9.5 (column 1e5 times smaller than the others): misfit 0.75; any isotherm with sum of squares < 1e-4: answer 0.
+    # Same root as the known finding S38: SLSQP with an ABSOLUTE ftol = 1e-4, start vector 0, reports success when the objective stalls.
+    # TODO(not generated): a kernel file REWRITTEN under the same path during the process is answered from `_LOADED` (the hypothesis "one content per path" of
+    # Props/C18/Memo.lean `loaded_cache_transparent`); by design of the cache, the property's quantifier does not include files that change.
+    def sparse_weights(nw, k=None):
+        wts = np.zeros(nw)
+        for j in rng.sample(range(nw), k or rng.randint(1, min(4, nw))):
+            wts[j] = rng.uniform(0.05, 1.0)
+        return wts
 
     try:
         for i in range(N):
@@ -143,6 +293,166 @@ def run(ck):
                 ck.count(("fit-arb", sig["kernel"], order, i), bucket=f"arbitrary data:{sig['kernel']}:order {order}")
                 certificate(path, pressure, load2.tolist(), order, None, sig, {"n_points": len(pressure), "loading_head": load2[:4].tolist()}, widths0)
 
+        # ------------------------------------------------------------------ histories: sequences of fits in ONE process on related pressure grids
+        # (Props/C18/Memo.lean: whatever is kept between calls must be invisible; every answer of a history passes the certificate of a single fit)
+        def kname(k):
+            return "shipped" if k == "shipped" else "user"
+
+        def related_grids(G, top):
+            n = len(G)
+            out = []
+            inner = sorted(logu(rng, G[0], G[-1]) for _ in range(n - 2))
+            out.append(("same length and end points, other interior points", np.array([G[0]] + inner + [G[-1]])))
+            j = rng.randrange(1, n - 1)
+            H = G.copy()
+            H[j] = math.sqrt(G[j - 1] * G[j]) if rng.random() < 0.5 else math.sqrt(G[j] * G[j + 1])
+            out.append(("one interior point moved", H))
+            nk = max(1, (n - 2) * 2 // 3)
+            keep = sorted(rng.sample(range(1, n - 1), nk))
+            out.append(("subset with the same end points", G[[0] + keep + [n - 1]]))
+            keep2 = sorted(rng.sample(range(1, n - 1), nk))
+            out.append(("another subset of the same size with the same end points", G[[0] + keep2 + [n - 1]]))
+            out.append(("shifted by one point (first dropped)", G[1:].copy()))
+            out.append(("shifted by one point (last dropped)", G[:-1].copy()))
+            out.append(("first dropped and one appended (same length)", np.append(G[1:], [math.sqrt(G[-1] * top)])))
+            out.append(("reversed", G[::-1].copy()))
+            return out
+
+        def history(k, npts, orders, n_related):
+            path, widths0, plo, phi = KERNEL_FILES[k]
+            nw = len(widths0)
+            G = np.array(sorted({logu(rng, max(plo, 1e-7) * 1.01, phi * 0.98) for _ in range(npts)}))
+            w1, w2 = sparse_weights(nw), sparse_weights(nw)
+            rel = related_grids(G, phi * 0.99)
+            rng.shuffle(rel)
+            steps = [("first fit of the history", G, w1)] + [(t, g, w1) for t, g in rel[:n_related]]
+            steps.insert(rng.randint(1, len(steps)), ("same grid as the first fit, other isotherm", G.copy(), w2))
+            first_order = rng.choice(orders)
+            first = None
+            done = []
+            for pos, (tag, grid, wts) in enumerate(steps + [("first fit repeated at the end of the history", G.copy(), w1)]):
+                order = first_order if pos in (0, len(steps)) else rng.choice(orders)
+                loading = combo(path, grid, wts)
+                sig = {"kernel": kname(k), "bspline_order": order, "history": tag}
+                detail = {"kernel_file": os.path.basename(path), "weights": {str(widths0[j]): float(wts[j]) for j in range(nw) if wts[j] > 0}, "n_points": len(grid),
+                          "pressure": grid.tolist(), "first_grid": G.tolist(), "earlier_fits": list(done)}
+                ck.count(("history", k, tag, order, pos, len(grid)), bucket=f"history:{kname(k)}:{tag}")
+                res = certificate(path, grid, loading, order, wts, sig, detail, widths0)
+                done.append(tag)
+                if pos == 0:
+                    first = res
+                elif pos == len(steps) and first is not None and res is not None:
+                    if not all(np.array_equal(a, b) for a, b in zip(first, res)):
+                        fail_case({"kernel": kname(k), "bspline_order": order, "clause": "the same fit gives another answer after other fits in the same process"},
+                                     {**detail, "max_difference_fitted_isotherm": float(np.max(np.abs(first[3] - res[3])))})
+            # the same array OBJECTS with changed content
+            P = G.copy()
+            L = combo(path, P, w1)
+            order = rng.choice(orders)
+            sig = {"kernel": kname(k), "bspline_order": order, "history": "same array objects, content changed in place"}
+            detail = {"kernel_file": os.path.basename(path), "n_points": len(P)}
+            ck.count(("history-inplace", k, order, len(P)), bucket=f"history:{kname(k)}:same array objects, content changed in place")
+            r1 = fit(path, P, L, order, sig, detail)
+            j = rng.randrange(1, len(P) - 1)
+            P[j] = math.sqrt(P[j] * P[j + 1])
+            L[:] = combo(path, P, w2)
+            r2 = fit(path, P, L, order, sig, detail)
+            if r1 is not None and r2 is not None:
+                base = fit(path, P.copy(), L.copy(), 0, sig, detail) if order else None
+                verify(r2, path, P, L, order, w2, sig, {**detail, "moved_point": j, "pressure_before": G.tolist(), "pressure": P.tolist(), "weights_before": {str(widths0[i]): float(w1[i]) for i in range(nw) if w1[i] > 0},
+                                                     "weights": {str(widths0[i]): float(w2[i]) for i in range(nw) if w2[i] > 0}}, widths0, base=base)
+
+        for rep in range(ck.n(2, 6)):
+            for k in ("user", "twin", "user2", "user3"):
+                history(k, {"user": 12, "twin": 12, "user2": 11, "user3": 8}[k], [0, 0, 1, 2, 3], 8)
+        for rep in range(ck.n(2, 4)):
+            history("shipped", rng.choice([16, 24]), [0, 0, 0, 2, 3], ck.n(4, 8))
+
+        # one grid, every kernel in turn (whatever is kept for a grid must not outlive the kernel it was computed for)
+        for rep in range(ck.n(1, 3)):
+            lo_c = max(v[2] for v in KERNEL_FILES.values()) * 1.01
+            hi_c = min(v[3] for v in KERNEL_FILES.values()) * 0.98
+            G = np.array(sorted({logu(rng, lo_c, hi_c) for _ in range(10)}))
+            names = ["user", "twin", "user2", "user3", "shipped", "user", "twin"]
+            rng.shuffle(names)
+            for pos, k in enumerate(names):
+                path, widths0, _, _ = KERNEL_FILES[k]
+                wts = sparse_weights(len(widths0))
+                order = rng.choice([0, 0, 2])
+                sig = {"kernel": kname(k), "bspline_order": order, "history": "other kernel on the same grid"}
+                detail = {"kernel_file": os.path.basename(path), "kernels_before": names[:pos], "weights": {str(widths0[j]): float(wts[j]) for j in range(len(widths0)) if wts[j] > 0}, "pressure": G.tolist()}
+                ck.count(("history-kernels", k, pos, order), bucket="history:other kernel on the same grid")
+                certificate(path, G, combo(path, G, wts), order, wts, sig, detail, widths0)
+
+        # ------------------------------------------------------------------ histories through the entry point: one isotherm, changing limits / branch / isotherm
+        def iso_of(pp, ll):
+            return pg.PointIsotherm(pressure=pp, loading=ll, material="pgv-synth", adsorbate="N2", temperature=77.355, pressure_mode="relative", pressure_unit=None,
+                                    loading_basis="molar", loading_unit="mmol", material_basis="mass", material_unit="g", temperature_unit="K")
+
+        def entry(iso, karg, branch, lim, order, sig, detail):
+            try:
+                return pgc.psd_dft(iso, kernel=karg, branch=branch, p_limits=lim, bspline_order=order)
+            except CalculationError:
+                ck.count(("entry-refused", sig["kernel"]), nontrivial=False, bucket="fit refused (optimiser reports failure)")
+                return None
+            except Exception as e:  # noqa
+                fail_case({**sig, "clause": "psd_dft raises a non-pyGAPS error", "error": type(e).__name__}, {**detail, "error": repr(e)[:300]})
+                return None
+
+        def entry_history(k, npts):
+            path, widths0, plo, phi = KERNEL_FILES[k]
+            karg = "DFT-N2-77K-carbon-slit" if k == "shipped" else path
+            nw = len(widths0)
+            P = np.array(sorted({logu(rng, max(plo, 1e-7) * 1.01, phi * 0.98) for _ in range(npts)}))
+            n = len(P)
+            w1, w2 = sparse_weights(nw), sparse_weights(nw)
+            # desorption branch on another grid, measured downwards from below the last adsorption point
+            Pd = np.array(sorted({logu(rng, P[1], P[-2]) for _ in range(max(6, n // 2))}))[::-1]
+            iso1 = iso_of(np.concatenate([P, Pd]), np.concatenate([combo(path, P, w1), combo(path, Pd, w2) * 1.0]))
+            a = rng.randrange(1, max(2, n // 3))
+            b = rng.randrange(n - max(2, n // 3), n - 1)
+            # a second isotherm: same pressures at and outside the window ends, other pressures inside the window (same number of points)
+            inner = sorted(logu(rng, P[a], P[b]) for _ in range(b - a - 1))
+            P2 = np.concatenate([P[:a + 1], inner, P[b:]])
+            iso2 = iso_of(P2, combo(path, P2, w1))
+            steps = [("ads", iso1, P, w1, a, b), ("ads", iso1, P, w1, a + 1, b), ("ads", iso1, P, w1, a, b - 1), ("ads", iso2, P2, w1, a, b), ("ads", iso1, P, w1, None, b),
+                     ("ads", iso1, P, w1, a, None), ("ads", iso1, P, w1, None, None), ("des", iso1, Pd[::-1], w2, 1, len(Pd) - 2), ("des", iso1, Pd[::-1], w2, None, None)]
+            head, rest = steps[0], steps[1:]
+            rng.shuffle(rest)
+            rest = rest[:ck.n(4, 8)] if k == "shipped" else rest
+            for pos, (branch, iso, grid, wts, lo_i, hi_i) in enumerate([head] + rest + [head]):
+                lim = (None if lo_i is None else math.sqrt(float(grid[lo_i - 1]) * float(grid[lo_i])), None if hi_i is None else math.sqrt(float(grid[hi_i]) * float(grid[hi_i + 1])))
+                ea, eb = (0 if lo_i is None else lo_i), (len(grid) - 1 if hi_i is None else hi_i)
+                order = rng.choice([0, 0, 2] if k == "shipped" else [0, 0, 1, 2, 3])
+                tag = f"entry point, {branch} branch, limits " + ("none" if lo_i is None and hi_i is None else "lower only" if hi_i is None else "upper only" if lo_i is None else "both") + (", second isotherm" if iso is iso2 else "")
+                sig = {"kernel": kname(k), "bspline_order": order, "history": tag}
+                detail = {"kernel_file": os.path.basename(path), "limits": lim, "expected_points": [ea, eb], "position_in_history": pos, "n_points": len(grid), "weights": {str(widths0[j]): float(wts[j]) for j in range(nw) if wts[j] > 0},
+                          "pressure": grid.tolist(), "branch": branch}
+                ck.count(("entry-history", k, tag, order, pos), bucket=f"history:{kname(k)}:{tag}")
+                lim_arg = lim if (lo_i, hi_i) != (None, None) or rng.random() < 0.5 else None
+                r = entry(iso, karg, branch, lim_arg, order, sig, detail)
+                if r is None:
+                    continue
+                if len(grid) <= 16 and sum(1 for pl in plan if pl[0] == "win") < 60:
+                    lines.append(f"win da {'N' if lim_arg is None else 'L'} {optq(lim[0])} {optq(lim[1])} {qlist(grid)} []")
+                    plan.append(("win", tuple(int(v) for v in r["limits"])))
+                if tuple(int(v) for v in r["limits"]) != (ea, eb):
+                    fail_case({**sig, "clause": "points used are not the points inside the pressure limits"}, {**detail, "used": [int(v) for v in r["limits"]]})
+                    continue
+                base = None
+                if order:
+                    r0 = entry(iso, karg, branch, lim, 0, sig, detail)
+                    base = None if r0 is None else (r0["pore_widths"], r0["pore_distribution"], r0["pore_volume_cumulative"], r0["kernel_loading"])
+                used_p = grid[ea:eb + 1]
+                verify((r["pore_widths"], r["pore_distribution"], r["pore_volume_cumulative"], r["kernel_loading"]), path, used_p, combo(path, used_p, wts), order, wts, sig, detail, widths0, base=base)
+
+        for rep in range(ck.n(2, 6)):
+            entry_history("user", 14)
+            entry_history("twin", 14)
+            entry_history("user2", 12)
+        for rep in range(ck.n(1, 2)):
+            entry_history("shipped", rng.choice([24, 32]))
+
         # ------------------------------------------------------------------ entry point: limits, outside-range refusal
         for i in range(max(6, N // 2)):
             npts = rng.choice([30, 50])
@@ -159,7 +469,10 @@ def run(ck):
             a, b = sorted(rng.sample(range(2, npts - 2), 2))
             if b - a < 5:
                 continue
-            lim = (float(pressure[a]) * 0.999, float(pressure[b]) * 1.001)
+            if b + 1 >= len(pressure):
+                continue
+            # limits half-way (geometrically) between neighbouring points: the expected window does not depend on how close two random pressures are
+            lim = (math.sqrt(float(pressure[a - 1]) * float(pressure[a])), math.sqrt(float(pressure[b]) * float(pressure[b + 1])))
             order = rng.choice([0, 2])
             ck.count(("limits", i), bucket="entry point: limits")
             try:
@@ -171,13 +484,13 @@ def run(ck):
             except CalculationError:
                 continue
             except Exception as e:  # noqa
-                ck.fail_case({"clause": "psd_dft raises a non-pyGAPS error", "error": type(e).__name__}, {"limits": lim, "error": repr(e)[:300]})
+                fail_case({"clause": "psd_dft raises a non-pyGAPS error", "error": type(e).__name__}, {"limits": lim, "error": repr(e)[:300]})
                 continue
             if tuple(int(v) for v in r1["limits"]) != (a, b):
-                ck.fail_case({"clause": "points used are not the points inside the pressure limits"}, {"limits": lim, "used": [int(v) for v in r1["limits"]], "expected": [a, b]})
+                fail_case({"clause": "points used are not the points inside the pressure limits"}, {"limits": lim, "used": [int(v) for v in r1["limits"]], "expected": [a, b]})
             same = all(np.array_equal(np.asarray(r1[k], dtype=float), np.asarray(r2[k], dtype=float)) for k in ("pore_widths", "pore_distribution", "pore_volume_cumulative", "kernel_loading"))
             if not same:
-                ck.fail_case({"clause": "points outside the requested pressure limits influence the result"}, {"limits": lim, "used": [a, b]})
+                fail_case({"clause": "points outside the requested pressure limits influence the result"}, {"limits": lim, "used": [a, b]})
             lines.append(f"win da L {q(lim[0])} {q(lim[1])} {qlist(pressure)} []")
             plan.append(("win", (a, b)))
         # points outside the kernel's pressure range that the user excludes with p_limits have no influence (and do not cause a refusal)
@@ -202,33 +515,41 @@ def run(ck):
             try:
                 r_ex = pgc.psd_dft(iso2(np.concatenate([inside, extra]), np.concatenate([l_in, [l_in[-1] * 1.1, l_in[-1] * 1.2]])), kernel="DFT-N2-77K-carbon-slit", branch="ads", p_limits=lim, bspline_order=0)
                 if not all(np.array_equal(np.asarray(r_in[k], dtype=float), np.asarray(r_ex[k], dtype=float)) for k in ("pore_distribution", "pore_volume_cumulative", "kernel_loading")):
-                    ck.fail_case({"clause": "points outside the requested pressure limits influence the result"}, {"limits": lim, "extra_points": extra.tolist()})
+                    fail_case({"clause": "points outside the requested pressure limits influence the result"}, {"limits": lim, "extra_points": extra.tolist()})
             except Exception as e:  # noqa
-                ck.fail_case({"clause": "points outside the requested pressure limits influence the result", "how": "refused: " + type(e).__name__}, {"limits": lim, "extra_points": extra.tolist(), "error": str(e)[:200]})
+                fail_case({"clause": "points outside the requested pressure limits influence the result", "how": "refused: " + type(e).__name__}, {"limits": lim, "extra_points": extra.tolist(), "error": str(e)[:200]})
         for bad in ([kp[-1] * 1.5], [-1e-3], [kp[-1] * 1.0001]):
             pressure = np.array(sorted([float(kp[3]), float(kp[10]), float(kp[20])] + bad))
             ck.count(("outside", bad[0]), bucket="outside kernel range")
             try:
                 pk.psd_dft_kernel_fit(pressure, np.linspace(1, 2, len(pressure)), shipped, bspline_order=0)
-                ck.fail_case({"clause": "pressure outside the kernel range accepted"}, {"pressure": pressure.tolist(), "kernel_range": [float(kp[0]), float(kp[-1])]})
+                fail_case({"clause": "pressure outside the kernel range accepted"}, {"pressure": pressure.tolist(), "kernel_range": [float(kp[0]), float(kp[-1])]})
             except CalculationError:
                 pass
             except Exception as e:  # noqa
-                ck.fail_case({"clause": "pressure outside the kernel range gives a non-pyGAPS error", "error": type(e).__name__}, {"pressure": pressure.tolist(), "error": repr(e)[:300]})
+                fail_case({"clause": "pressure outside the kernel range gives a non-pyGAPS error", "error": type(e).__name__}, {"pressure": pressure.tolist(), "error": repr(e)[:300]})
         for path_, top in ((user_path, up[-1]), (user_path2, up2[-1])):
             pressure = np.array([top * 0.1, top * 0.5, top * 0.9, top * 1.2])
             ck.count(("outside-user", path_), bucket="outside kernel range (user kernels with the same file name)")
             try:
                 pk.psd_dft_kernel_fit(pressure, np.linspace(1, 2, 4), path_, bspline_order=0)
-                ck.fail_case({"clause": "pressure outside the kernel range accepted", "kernel": "user"}, {"pressure": pressure.tolist(), "kernel_top": float(top)})
+                fail_case({"clause": "pressure outside the kernel range accepted", "kernel": "user"}, {"pressure": pressure.tolist(), "kernel_top": float(top)})
             except CalculationError:
                 pass
             except Exception as e:  # noqa
-                ck.fail_case({"clause": "pressure outside the kernel range gives a non-pyGAPS error", "error": type(e).__name__}, {"pressure": pressure.tolist(), "error": repr(e)[:300]})
+                fail_case({"clause": "pressure outside the kernel range gives a non-pyGAPS error", "error": type(e).__name__}, {"pressure": pressure.tolist(), "error": repr(e)[:300]})
     finally:
         pk._LOADED.pop(user_path, None)
         pk._LOADED.pop(user_path2, None)
         pk._LOADED.pop(os.path.basename(user_path), None)
+        pk._LOADED.pop(user_path3, None)
+        pk._LOADED.pop(twin_path, None)
+        for f in os.listdir(tmpdir4):
+            os.remove(os.path.join(tmpdir4, f))
+        os.rmdir(tmpdir4)
+        for f in os.listdir(tmpdir3):
+            os.remove(os.path.join(tmpdir3, f))
+        os.rmdir(tmpdir3)
         for f in os.listdir(tmpdir2):
             os.remove(os.path.join(tmpdir2, f))
         os.rmdir(tmpdir2)
@@ -238,7 +559,7 @@ def run(ck):
 
     # ------------------------------------------------------------------ correspondence
     n_dis = 0
-    kl_lines = [(l, p) for l, p in zip(lines, plan) if p[0] != "win"]
+    kl_lines = [(l, p) for l, p in zip(lines, plan) if p[0] != "win"] + [(l, ("bs", d)) for l, d in zip(bs_lines, bs_plan)]
     win_lines = [(l, p) for l, p in zip(lines, plan) if p[0] == "win"]
     for driver, items in (("Kernel", kl_lines), ("Char", win_lines)):
         if not items:
@@ -255,6 +576,11 @@ def run(ck):
                 ok = False
             elif what == "kl":
                 ok = all(abs(float(a) - float(b)) <= 1e-9 * max(1.0, abs(float(b))) for a, b in zip(parse_qlist(t[1]), data))
+            elif what == "bs":
+                # Model/Kernel.lean bsplineCurve at ℚ (the driver also checks the hypotheses of bsplineAt_mem_Icc on every query) against the library's smoothed arrays
+                mw, md = [float(v) for v in parse_qlist(t[1])], [float(v) for v in parse_qlist(t[2])]
+                sw, sd = max(abs(v) for v in mw), max(max(abs(v) for v in md), 1e-300)
+                ok = len(mw) == len(data[0]) and all(abs(a - float(b)) <= 1e-9 * sw for a, b in zip(mw, data[0])) and all(abs(a - float(b)) <= 1e-9 * sd for a, b in zip(md, data[1]))
             elif what == "dist":
                 ok = all(abs(float(a) - float(b)) <= 1e-9 * max(1.0, abs(float(b))) for a, b in zip(parse_qlist(t[1]), data[0])) and \
                     all(abs(float(a) - float(b)) <= 1e-9 * max(1.0, abs(float(b))) for a, b in zip(parse_qlist(t[2]), data[1]))
@@ -265,7 +591,11 @@ def run(ck):
                 if n_dis <= 3:
                     ck.broken.append({"step": f"correspondence Model/Kernel.lean ({what})", "what": {"request": line[:300], "model": rep[:300], "implementation": str(data)[:300]}})
     ck.cov["correspondence_disagreements"] = n_dis
+    ck.cov["twin_kernel_files_same_size"] = bool(twin_same_size)
     ck.cov["worst"] = {k: float(f"{v:.3g}") for k, v in sorted(worst.items())}
-    ck.cov["rule"] = ("non-negative sparse (1-4 widths) and dense weight vectors over the 77 kernel pore widths and over a 6-width user kernel file, 12-60 log-uniform pressures inside the kernel range, spline orders 0-3, "
-                      "arbitrary increasing data, pressure limits anywhere with perturbed data outside them, pressures outside the kernel range")
-    ck.assumptions += ["scipy SLSQP (ftol 1e-4) is numerical: fit error of exact combinations checked to 2e-2 (relative L2)", "scipy interp1d(kind='cubic') of the kernel file and scipy splev are residue"]
+    ck.cov["rule"] = ("non-negative sparse (1-4 widths) and dense weight vectors over the 77 kernel pore widths and over user kernel files with 6, 6 and 3 widths, 8-60 log-uniform pressures inside the kernel range, spline orders 0-3 "
+                      "(every smoothed fit against the unsmoothed fit of the same data and de Boor's recursion), arbitrary increasing data, pressure limits anywhere (both, one, none; adsorption and desorption branch) with perturbed data outside them, "
+                      "pressures outside the kernel range; histories of fits in one process on related grids (same length and end points, one point moved, subsets, shifted, reversed, arrays changed in place, other isotherm / order / kernel on "
+                      "the same grid, other limits or isotherm through the entry point), every answer certified with an independently loaded and interpolated kernel, repeated calls compared")
+    ck.assumptions += ["scipy SLSQP (ftol 1e-4, absolute) is numerical: fit error of exact combinations checked to max(0.15, 2e-2 |loading|_2) in L2",
+                       "scipy interp1d(kind='cubic') of the kernel file is residue; scipy splev is compared with the de Boor model on every smoothed fit"]
